@@ -22,6 +22,11 @@ class MSession:
     def load_mir(self):
         t0 = time.time()
         out = os.path.join(self.scr.dir, "mir.txt")
+        dev = os.environ.get("VERIF_DEV_MIR")     # development shortcut only: never set by registered commands
+        if dev:
+            self.dump = mir.MirDump(open(os.path.join(dev, "mir.txt")).read())
+            self.decls = mir.TypeDecls(os.path.join(dev, "repo", "src"))
+            return self.dump
         self.dump = mir.dump_mir(self.scr.repo, os.path.join(self.scr.dir, "mir-target"), out)
         self.decls = mir.TypeDecls(os.path.join(self.scr.repo, "src"))
         self.run.log("MIR dump: %d functions in %.0fs" % (sum(len(v) for v in self.dump.fns.values()), time.time() - t0))
@@ -120,8 +125,11 @@ def solve_file(solver, decls, asserts, values, timeout_s, path):
 class Batch:
     """collect obligations, discharge them in parallel fresh solver processes, book-keep in order"""
 
-    def __init__(self, ms, tag, decls, timeout_s=120, jobs=12):
+    def __init__(self, ms, tag, decls, timeout_s=120, jobs=12, deltas=()):
         self.ms, self.tag, self.decls = ms, tag, list(decls)
+        # rounding-error variables of the encoding: when a query is not decided in time it is retried with all of
+        # them fixed to 0 (a legal choice), which usually lets the solver exhibit a model quickly
+        self.deltas = list(deltas)
         self.jobs_n, self.timeout_s = jobs, timeout_s
         self.items = []
 
@@ -143,7 +151,13 @@ class Batch:
             for solver in (self.ms.primary,) + tuple(it["also"]):
                 path = os.path.join(qdir, "q%03d-%s.smt2" % (i, solver))
                 res[solver] = solve_file(solver, self.decls, it["asserts"], it["values"] if it["expect"] == "unsat" else [],
-                                         self.timeout_s, path)
+                                         15 if it["expect"] == "info" else self.timeout_s, path)
+                if solver == self.ms.primary and it["expect"] == "unsat" and res[solver][0] in ("timeout", "unknown") and self.deltas:
+                    zero = ["(= %s 0.0)" % d for d in self.deltas]
+                    r2 = solve_file(solver, self.decls, it["asserts"] + zero, it["values"], min(60, self.timeout_s),
+                                    path.replace(".smt2", "-exact.smt2"))
+                    if r2[0] == "sat":
+                        res[solver] = (r2[0], r2[1], res[solver][2] + r2[2], r2[3])
             return res
 
         with ThreadPoolExecutor(max_workers=self.jobs_n) as ex:
@@ -181,8 +195,16 @@ class Batch:
                 run.add_obligation(it["name"], "mir-smt", "inconclusive", **rec)
                 run.inconclusive.append("%s: vacuity twin is unsat - the obligation has become vacuous" % it["name"])
             else:
-                run.add_obligation(it["name"], "mir-smt", "inconclusive", **rec)
-                run.inconclusive.append("%s: solver answered %s" % (it["name"], verdict))
+                ob = run.add_obligation(it["name"], "mir-smt", "inconclusive", **rec)
+                n_before = len(run.violations)
+                if expect == "unsat" and it["on_sat"]:
+                    # undecided: let the replay look for a concrete failing input anyway (it reports only what
+                    # reproduces on the real code); without one the obligation stays inconclusive
+                    k = len(run.inconclusive)
+                    it["on_sat"]({}, ob, it)
+                    del run.inconclusive[k:]
+                if len(run.violations) == n_before:
+                    run.inconclusive.append("%s: solver answered %s" % (it["name"], verdict))
         done = self.items
         self.items = []
         return done
